@@ -42,6 +42,13 @@ def run(ctx, rep):
              floor=1)
     from .c09 import check_single_is_sequence_of_one
     check_single_is_sequence_of_one(ctx, rep, "P6", E + "projected_linear_estimator.ProjectedLinearEstimator")
+    # the equality step of that projection: the constants of the four equality projections (rule S4 of C04) are re-run here, because
+    # the projected-gradient estimators reach them through func_calc_proj_physical_with_var
+    rep.rule("P7", "the equality projections the estimators iterate with shift every element by the constant its own parametrisation implies "
+                   "(State d^-1/2 e0, Povm sqrt(d)/m e0, Gate / MProcess row 0 = e0 spread over the outcomes): rule S4 of C04", floor=4)
+    from ..report import Relay
+    from . import c04
+    c04._s4(ctx, Relay(rep, {"S4": "P7"}))
     _p1(ctx, rep)
     _p2(ctx, rep)
     for name, qn in ALGOS.items():
